@@ -17,14 +17,18 @@ _STUB = ["/verif/shadow/lxml (symdom); nodes built by Element.make_etree_element
 
 
 def _o(fn, secs, bounds, **kw):
-    return Obl(name=fn, module="h_pretty", func=fn, shadow=True, timeout=max(200, secs * 4), replay="r_h_pretty:" + fn, weight=secs, bounds=bounds,
+    return Obl(name=fn, module="h_pretty", func=fn, shadow=True, timeout=max(700, secs * 4), replay="r_h_pretty:" + fn, weight=secs, bounds=bounds,
                encodes=_ENC, stubs=_STUB, **kw)
 
 
 OBLIGATIONS = [
-    _o("pretty_one", 60, "<p>t<el>t[<child/>]</el>t</p>, 5 element kinds, every text/tail in {None,'','a',' '}"),
-    _o("pretty_two", 130, "<p>t<el/>t<el>t</el></p>, 5 x 5 element kinds, outside the known-finding region"),
-    _o("pretty_part_pure", 31, "XmlPart over the one-child shapes: custom_pretty_tree twice, in-memory tree compared"),
+    _o("pretty_one", 190, "<p>t<el>t[<child/>]</el>t</p>, 5 element kinds, every text/tail in {None,'','a',' '}"),
+] + [
+    Obl(name=f"pretty_two_kind{_k}", module="h_pretty", func="pretty_two", shadow=True, timeout=500, env={"VERIF_KIND1": str(_k)}, extra={"kind1": _k},
+        replay="r_h_pretty:pretty_two", weight=80, bounds=f"<p>t<el/>t<el>t</el></p>, first child kind {_k} of 5, second child kind symbolic, outside the known-finding region",
+        encodes=_ENC, stubs=_STUB) for _k in range(5)
+] + [
+    _o("pretty_part_pure", 180, "XmlPart over the one-child shapes: custom_pretty_tree twice, in-memory tree compared"),
     Obl(name="save_neutral", module="h_docsave", func="save_neutral", shadow=True, timeout=600, replay="r_h_docsave:save_neutral", weight=75,
         bounds="Document over an in-memory container: parts touched before saving (content, styles), pretty flag of the first save, paragraph texts from a list - all symbolic choices; then a plain save",
         encodes=["src/odfdo/document.py:Document.save,get_part,content,styles,body,_check_manifest_rdf", "src/odfdo/xmlpart.py:XmlPart.serialize,pretty_serialize,custom_pretty_tree,_get_tree,root",
